@@ -712,7 +712,8 @@ func replay(file string) int {
 
 		out, err := cmd.CombinedOutput()
 		for _, l := range strings.Split(string(out), "\n") {
-			if strings.HasPrefix(l, "VIOLATION") || strings.HasPrefix(l, "  detail:") || strings.HasPrefix(l, "REPLAY") || strings.HasPrefix(l, "KNOWN-FINDING") {
+			if strings.HasPrefix(l, "VIOLATION") || strings.HasPrefix(l, "  detail:") || strings.HasPrefix(l, "REPLAY") || strings.HasPrefix(l, "KNOWN-FINDING") ||
+				(os.Getenv("VERIF_TRACE") != "" && strings.HasPrefix(l, "TRACE")) {
 				fmt.Println(l)
 			}
 
